@@ -219,12 +219,9 @@ Definition bind_ok (i : cinfo) (kwargs : list (string * val)) : bool :=
   forallb (fun k => mem_str k (map fst (ci_params i)) || ci_varkw i) (keys kwargs)
   && forallb (fun p => negb (snd p) || mem_str (fst p) (keys kwargs)) (ci_params i).
 
-(* replace the value under key k *)
-Fixpoint set_key (k : string) (v : val) (kv : list (string * val)) : list (string * val) :=
-  match kv with
-  | [] => []
-  | (k', v') :: tl => if String.eqb k k' then (k', v) :: tl else (k', v') :: set_key k v tl
-  end.
+(* d[k] = v for a key that is present (keys are unique) *)
+Definition set_key (k : string) (v : val) (kv : list (string * val)) : list (string * val) :=
+  map (fun p => if String.eqb k (fst p) then (fst p, v) else p) kv.
 
 Definition is_none (v : val) : bool := match v with VNone => true | _ => false end.
 
@@ -264,6 +261,9 @@ Section Build.
   (* factory_class.from_alias(alias, ** kwargs) *)
   Definition from_alias_with (rec : Z -> val -> res val) (fam : Z) (alias : val)
              (kwargs : list (string * val)) : res val :=
+    if mem_str "cls" (keys kwargs)
+    then Err TypeError       (* from_alias(cls, alias, ...): multiple values for argument 'cls' *)
+    else
     match subtree (r_tree r) fam with
     | None => Err TypeError
     | Some ft =>
